@@ -43,6 +43,9 @@ def instances(tier, seed):
             for mode in ('soft', 'hard', 'gumbel'):
                 out.append({'id': f'{snlib.prog_id(s)}:full={int(full)}:{mode}', 'spec': s, 'full': full, 'mode': mode, 'wseed': seed})
         out.append({'id': f'{snlib.prog_id(s)}:rewrap', 'spec': s, 'full': True, 'mode': 'rewrap', 'wseed': seed})
+    # hard selection asked of a Gumbel block, evaluated in eval mode (no noise): "under hard selection it equals the same metric on the exported network"
+    for s in specs[:3]:
+        out.append({'id': f'{snlib.prog_id(s)}:full=1:gs_hard_eval', 'spec': s, 'full': True, 'mode': 'gs_hard_eval', 'wseed': seed})
     return out
 
 
@@ -113,7 +116,11 @@ def concrete_case(rec):
     sn, model, shape = snlib.make_sn(spec, rec.get('wseed', 0), cost=_cost_specs(), full_cost=full)
     snlib.set_alphas(sn, rec['alphas'])
     T = float(Fraction(rec.get('temperature', 1)))
-    sn.update_softmax_options(temperature=T, hard=(mode in ('hard', 'rewrap')))
+    if mode == 'gs_hard_eval':
+        for _, c in snlib.combiners(sn):
+            c.sample_alpha = c.sample_alpha_gs
+        sn.eval()
+    sn.update_softmax_options(temperature=T, hard=(mode in ('hard', 'rewrap', 'gs_hard_eval')))
     torch.manual_seed(0)
     with torch.no_grad():
         sn(torch.zeros((1,) + tuple(shape)))
@@ -128,7 +135,7 @@ def concrete_case(rec):
             w += sum(t * branches[block][i][m] for i, t in enumerate(th))
         want[m] = w
     out = {'got': got, 'mix': want, 'theta': theta}
-    if mode in ('hard', 'rewrap'):
+    if mode in ('hard', 'rewrap', 'gs_hard_eval'):
         e = sn.export().eval()
         out['exported'] = exported_counts(e, shape)
         if mode == 'rewrap':
@@ -169,7 +176,11 @@ def run_instance(p):
         for _, c in combs:
             c.sample_alpha = c.sample_alpha_gs
         sn.train()
-    sn.update_softmax_options(hard=(mode == 'hard'))
+    if mode == 'gs_hard_eval':
+        for _, c in combs:
+            c.sample_alpha = c.sample_alpha_gs
+        sn.eval()
+    sn.update_softmax_options(hard=(mode in ('hard', 'gs_hard_eval')))
     # cheapest / most expensive selection (over all winner tuples)
     rng = {}
     for m in ('params', 'ops'):
@@ -190,7 +201,7 @@ def run_instance(p):
                 sn(torch.zeros((1,) + tuple(shape)))
                 costs = {m: st.scalar_of(sn.get_cost(m)) for m in ('params', 'ops')}
                 theta = {n: list(st.to_arr(c.theta_alpha).reshape(-1)) for n, c in combs}
-                e = sn.export() if mode == 'hard' else None
+                e = sn.export() if mode in ('hard', 'gs_hard_eval') else None
             finally:
                 for _, c in combs:
                     c.softmax_temperature = 1
